@@ -446,7 +446,11 @@ def spec_surrogates():
         return t
     mut = {"normalize_original_data": lambda o, rng: o.normalize_original_data()}
     return dict(cls=Surrogates, make=make, twin=twin, mutators=mut,
-                summary=["original_data", "original_data_fft()"], argsets={})
+                summary=["original_data", "original_data_fft()",
+                         # the delay embedding the twin search works on (recomputed by every
+                         # twin_surrogates call; the walk itself is random and not compared)
+                         "twin_surrogates(2, 1, 0.6, 5).shape and o.embedding.copy()",
+                         "twin_surrogates(2, 1, 0.6, 5).shape and o.twins(0.6, 5)"], argsets={})
 
 
 def spec_visibility():
